@@ -993,9 +993,11 @@ class Grid2D(Structure):
         of the grid's (y,x) values, whereas the `shape_native_scaled` uses the uniform geometry of the grid and its
         ``pixel_scales``, which means it has a buffer at each edge of half a ``pixel_scale``.
         """
+        grid = self.slim
+
         return (
-            np.amax(self[:, 0]) - np.amin(self[:, 0]),
-            np.amax(self[:, 1]) - np.amin(self[:, 1]),
+            np.amax(grid[:, 0]) - np.amin(grid[:, 0]),
+            np.amax(grid[:, 1]) - np.amin(grid[:, 1]),
         )
 
     @property
@@ -1004,9 +1006,11 @@ class Grid2D(Structure):
         The (y,x) minimum values of the grid in scaled units, buffed such that their extent is further than the grid's
         extent.
         """
+        grid = self.slim
+
         return (
-            np.amin(self[:, 0]).astype("float"),
-            np.amin(self[:, 1]).astype("float"),
+            np.amin(grid[:, 0]).astype("float"),
+            np.amin(grid[:, 1]).astype("float"),
         )
 
     @property
@@ -1015,9 +1019,11 @@ class Grid2D(Structure):
         The (y,x) maximum values of the grid in scaled units, buffed such that their extent is further than the grid's
         extent.
         """
+        grid = self.slim
+
         return (
-            np.amax(self[:, 0]).astype("float"),
-            np.amax(self[:, 1]).astype("float"),
+            np.amax(grid[:, 0]).astype("float"),
+            np.amax(grid[:, 1]).astype("float"),
         )
 
     def extent_with_buffer_from(self, buffer: float = 1.0e-8) -> List[float]:
